@@ -129,6 +129,74 @@ theorem hap_roundtrip (A : Aead) (hA : Laws A) (key : Bytes) (c : Nat) (data w :
   · rw [this, hapDecryptLoop]; simp
   · rw [hapEncryptFrames_counter A key _ c w c' h, hap_frame_count]
 
+/-! ## HAP: a whole session (any number of messages under one running counter) -/
+
+/-- `HAPSession.encrypt` called once per message, the outputs written to the transport in
+    the order of the calls (what `HttpConnection.send_and_receive` does: seal and write in
+    one step, with no suspension point between the two). -/
+def hapEncryptMany (A : Aead) (key : Bytes) : Nat → List Bytes → Except Err (Bytes × Nat)
+  | c, [] => .ok ([], c)
+  | c, m :: ms =>
+    match hapEncrypt A key c m with
+    | .error e => .error e
+    | .ok (w, c') =>
+      match hapEncryptMany A key c' ms with
+      | .error e => .error e
+      | .ok (rest, c'') => .ok (w ++ rest, c'')
+
+theorem hap_session_gen (A : Aead) (hA : Laws A) (key : Bytes) (ms : List Bytes) :
+    ∀ c w c' rest acc, hapEncryptMany A key c ms = .ok (w, c') →
+      hapDecryptLoop A key c (w ++ rest) acc =
+        hapDecryptLoop A key c' rest (acc ++ (ms.map (frames FRAME_LENGTH)).flatten) := by
+  induction ms with
+  | nil =>
+    intro c w c' rest acc h
+    simp [hapEncryptMany] at h
+    obtain ⟨rfl, rfl⟩ := h
+    simp
+  | cons m ms ih =>
+    intro c w c' rest acc h
+    simp only [hapEncryptMany] at h
+    split at h
+    · contradiction
+    · rename_i w1 c1 he
+      split at h
+      · contradiction
+      · rename_i w2 c2 hr
+        injection h with h; injection h with h1 h2
+        subst h1; subst h2
+        have hfs : ∀ f ∈ frames FRAME_LENGTH m, f.length < 65536 := by
+          intro f hf; have := (hap_frame_bound m f hf).2; omega
+        unfold hapEncrypt at he
+        rw [List.append_assoc, hap_roundtrip_gen A hA key _ hfs c w1 c1 (w2 ++ rest) acc he,
+          ih c1 w2 c2 rest _ hr]
+        simp [List.append_assoc]
+
+theorem frames_map_flatten (ms : List Bytes) :
+    ((ms.map (frames FRAME_LENGTH)).flatten).flatten = ms.flatten := by
+  induction ms with
+  | nil => simp
+  | cons m ms ih =>
+    simp only [List.map_cons, List.flatten_cons, List.flatten_append, hap_frames_join, ih]
+
+/-- **HAP session round trip (long message sequences).**  Whatever number of messages of
+    whatever sizes the sender seals one after the other from counter `c`, the receiver with
+    the matching key and counter, reading the concatenated stream, recovers exactly the
+    messages' bytes in order, with nothing left over, no error, and the sender's counter. -/
+theorem hap_session_roundtrip (A : Aead) (hA : Laws A) (key : Bytes) (c : Nat) (ms : List Bytes)
+    (w : Bytes) (c' : Nat) (h : hapEncryptMany A key c ms = .ok (w, c')) :
+    ∃ out, hapDecryptLoop A key c w [] = ⟨out, [], c', none⟩ ∧ out.flatten = ms.flatten := by
+  refine ⟨(ms.map (frames FRAME_LENGTH)).flatten, ?_, ?_⟩
+  · have := hap_session_gen A hA key ms c w c' [] [] h
+    simp only [List.append_nil, List.nil_append] at this
+    rw [this, hapDecryptLoop]; simp
+  · exact frames_map_flatten ms
+
+/-- the session theorem's premise is met by a concrete two-message session (toy AEAD) -/
+example : (match hapEncryptMany toyAead [7] 5 [[1, 2, 3], [], [9]] with
+    | .ok (_, c') => c' == 7
+    | .error _ => false) = true := by decide +kernel
+
 /-! ## HAP: any segmentation of the byte stream -/
 
 /-- continuation: if the loop on `b` stops without error, the loop on `b ++ x` is the loop
